@@ -349,6 +349,16 @@ let handle05 (toks : string list) : string =
   | "HD" :: _ -> "chk history_dependent"
   | "A" :: _ :: _ :: _ :: v :: _ -> if v = "same" then "ok" else "chk sync_async_differ"
   | "N" :: _ :: v :: _ -> if v = "same" then "ok" else "chk nested_" ^ v
+  | "NS" :: _ :: rest ->
+      (* nested paths x row shapes: the row's result on a fresh stream is the reference (the result
+         depends only on the row and the query); implementation-level differential *)
+      (match Win.split_hash rest with
+       | [ _; _; [ f; u; a ] ] ->
+           let v s = (match String.index_opt s '=' with Some i -> String.sub s (i + 1) (String.length s - i - 1) | None -> s) in
+           if v f <> v u then "chk nested_history_dependent fresh<>used"
+           else if v f <> v a then "chk nested_sync_async_differ fresh<>async"
+           else if String.length (v f) > 0 then "ok nt" else "ok"
+       | _ -> "bad line")
   | "Q" :: _ :: rest ->
       (match Win.split_hash rest with
        | [ _; qenc; rowt; obs ] ->
